@@ -97,7 +97,10 @@ def compare_transcripts(a, b, skip_fns=()):
         lb = [strip_cfg(l) for l in fb if l.split(" ", 1)[0] not in skip_fns]
     n = len(la)
     if len(la) != len(lb):
-        diffs.append({"what": "different number of cases", "a": len(la), "b": len(lb)})
+        k = min(len(la), len(lb))
+        diffs.append({"what": "different number of cases (one harness stopped early, or ran different cases)", "a": len(la), "b": len(lb),
+                      "last_common_case": la[k - 1].strip() if k else None,
+                      "next_case_in_the_longer": (la[k] if len(la) > k else lb[k]).strip()})
     for x, y in zip(la, lb):
         if x != y:
             diffs.append({"a": x.strip(), "b": y.strip()})
